@@ -18,6 +18,7 @@ anything else returns `Unknown` (top).
 
 import ast
 import builtins
+import collections
 import itertools
 import operator
 import re
@@ -681,11 +682,32 @@ class Interp:
             if name in _LIST_METHODS and _is_list_subclass(v.cls):
                 return PyMethod(v.attrs.setdefault('__items__', []), name)
             raise Raised(ExcVal('AttributeError', (v.cls.short, name)), node)
+        if isinstance(v, tuple) and getattr(type(v), '_sa_cls', None) is not None:
+            # instance of a NamedTuple class of the package: fields, then what the class body defines
+            if name in type(v)._fields:
+                return v[type(v)._fields.index(name)]
+            c = type(v)._sa_cls
+            if name == '__class__':
+                return c
+            if name in c.methods:
+                fi = c.methods[name]
+                if fi.kind == 'property':
+                    return self.call_function(fi, [v], {})
+                if fi.kind == 'staticmethod':
+                    return fi
+                if fi.kind == 'classmethod':
+                    return BoundMethod(fi, c)
+                return BoundMethod(fi, v)
+            if name in c.attrs:
+                return self.fold_value(ValueRef(c.modname, name, c.attrs[name], owner=c))
         if isinstance(v, ClassInfo):
             if name == '__name__':
                 return v.name
             if name == '__module__':
                 return v.modname
+            T = self.namedtuple_type(v)
+            if T is not None and name in ('_make', '_fields', '_field_defaults'):
+                return (lambda it_: T(*list(self.iterate(it_)))) if name == '_make' else getattr(T, name)
             r = self.class_attr(v, name)
             if r is _MISSING:
                 raise Raised(ExcVal('AttributeError', (v.short, name)), node)
@@ -1076,7 +1098,8 @@ class Interp:
         if isinstance(c, ExternalRef) and c.dotted in EXTERNAL_TYPES:
             return isinstance(v, EXTERNAL_TYPES[c.dotted])
         if isinstance(c, ClassInfo):
-            return False
+            sc = getattr(type(v), '_sa_cls', None)
+            return sc is not None and sc.is_subclass_of(c)
         return Unknown('isinstance')
 
     def issubclass_(self, v, c):
@@ -1086,12 +1109,43 @@ class Interp:
             return any(self.issubclass_(v, x) is True for x in c)
         return Unknown('issubclass')
 
+    def namedtuple_type(self, cls):
+        """For `class X(typing.NamedTuple)` of the analysed package: a real namedtuple type with the same fields and
+        defaults (its instances are ordinary tuples for the interpreter; methods of the class body are found through
+        `_sa_cls`). None for any other class."""
+        T = getattr(cls, '_nt_type', _MISSING)
+        if T is not _MISSING:
+            return T
+        T = None
+        for b in getattr(cls.node, 'bases', []):
+            try:
+                r = self.model.resolve_expr(cls.modname, b)
+            except Exception:
+                r = None
+            if isinstance(r, ExternalRef) and r.dotted == 'typing.NamedTuple':
+                fields, defaults = [], []
+                for st in cls.node.body:
+                    if isinstance(st, ast.AnnAssign) and isinstance(st.target, ast.Name):
+                        fields.append(st.target.id)
+                        if st.value is not None:
+                            defaults.append(self.eval(st.value, Frame(None, cls.modname, {})))
+                T = collections.namedtuple(cls.name, fields, defaults=defaults or None)
+                T._sa_cls = cls
+        cls._nt_type = T
+        return T
+
     def construct(self, cls, args, kwargs, node=None):
         hook = self.func_hooks.get('construct:' + cls.qualname)
         if hook is not None:
             r = hook(self, cls, args, kwargs)
             if r is not _MISSING:
                 return r
+        T = self.namedtuple_type(cls)
+        if T is not None and cls.lookup('__new__') is None:
+            try:
+                return T(*args, **kwargs)
+            except TypeError as ex:
+                raise Raised(ExcVal('TypeError', (str(ex),)), node)
         hit = cls.lookup('__new__')
         if hit is not None and hit[0] == 'method':
             obj = self.call_function(hit[1], [cls] + args, kwargs, node)
